@@ -138,6 +138,11 @@ func (s *sched) worker(t *thr, w world) {
 		t.opIdx = i
 		t.lockOps = 0
 		r := execOp(w, t.id, op)
+		if t.aborting {
+			// the abort panic was swallowed on the way (fmt recovers a panic raised inside a String method it
+			// calls): what the operation returned after that is not a result
+			break
+		}
 		if t.lockOps == 0 && t.noLock == "" && r != "nomod" {
 			t.noLock = op.K
 		}
